@@ -180,12 +180,16 @@ func (p IncrementalProof) Verify(snapshotStart, snapshotEnd *Snapshot) bool {
 
 // Version function returns the current (last) balloon version.
 func (b *Balloon) Version() uint64 {
+	b.RLock()
+	defer b.RUnlock()
 	return b.version
 }
 
 // RefreshVersion function gets the last stored version from the history-tree table
 // and updates balloon's version.
 func (b *Balloon) RefreshVersion() error {
+	b.Lock()
+	defer b.Unlock()
 	// get last stored version
 	kv, err := b.store.GetLast(storage.HistoryTable)
 	if err != nil {
